@@ -243,15 +243,9 @@ func TestVF_Cache(t *testing.T) {
 		id++
 	}
 	r := vfNewRand(vfSeed()).fork(12)
-	n := vfEnvInt("VERIF_N", 300)
-	for i := 0; i < n; i++ {
-		cs := vfGenCacheCase(r, id, profile)
-		vfRunCacheCase(cs)
-		out.put(cs)
-		id++
-	}
 	if profile == "C13" {
-		// exhaustive part: VERIF_ENUM = "cap:keys:depth[:prefill],..." (default: capacity 2, 3 keys, VERIF_ENUM_DEPTH)
+		// exhaustive part, before the random histories so that the shortest failing cases get the
+		// smallest ids: VERIF_ENUM = "cap:keys:depth[:prefill],..." (default: capacity 2, 3 keys, VERIF_ENUM_DEPTH)
 		spec := os.Getenv("VERIF_ENUM")
 		if spec == "" {
 			spec = fmt.Sprintf("2:3:%d", vfEnvInt("VERIF_ENUM_DEPTH", 4))
@@ -265,6 +259,15 @@ func TestVF_Cache(t *testing.T) {
 				id++
 			})
 		}
+	}
+	n := vfEnvInt("VERIF_N", 300)
+	for i := 0; i < n; i++ {
+		cs := vfGenCacheCase(r, id, profile)
+		vfRunCacheCase(cs)
+		out.put(cs)
+		id++
+	}
+	if profile == "C13" {
 		// sampled part (deeper words, drawn from the same PRNG): VERIF_ENUM_SAMPLE = "cap:keys:depth:count,..."
 		for _, e := range vfEnumSpecs(os.Getenv("VERIF_ENUM_SAMPLE")) {
 			if len(e) < 4 {
